@@ -153,6 +153,13 @@ P["C19"] = {
     "assumptions": A_CORE[:2] + A_TIME,
 }
 
+P["C15"] = {
+    "common": {"validate": 100, "runs": [{"pattern": "verifHarness_C15_", "label_filter": "C15:"}]},
+    "thorough": {"validate": -1},
+    "bounds": "symbolic type descriptors: reflect.Type values whose Kind is a solver variable over all 26 reflect kinds and whose structure is decided by forking: (single) a struct with 0..1 fields, 7 tag shapes (none, name, name+omitempty, '-', bq:\"-\", ',omitempty', name+other options+omitempty with another bq tag), exported or not, up to 3 further type nodes below the field (thorough 4); (pair) a struct with 0..2 fields, 2 tag shapes, up to 2 further nodes (thorough 3), the second field may reuse the first field's type node; element edges of pointers/slices/maps/chans may point to any node (cycles, sharing), array elements and struct fields only forward; map keys range over the comparable basic kinds; one node may be registered with a plain or an already-nullable schema. For every such type: schemaForType's result equals the reference transcription of the documented mapping (or both fail), is deterministic, has no union directly inside a union, no repeated branch, every named record defined once, and buildCodec on it returns a codec or an error. Concrete: the same check on all 105 catalogue struct types and 8 special shapes (same struct twice, embedded struct, uint/chan/interface/complex/func fields, Go arrays), natively replayed (validates the reflect model and the reference); self-referential concrete types (engine only).",
+    "outside": "types of more than 5 nodes; more than 2 fields per struct; embedded (anonymous) fields in symbolic descriptors; named non-struct types; tag strings outside the 7 shapes (nameForField / omitEmpty on arbitrary tag text go through reflect.StructTag.Get, which is computed natively on concrete tags only)",
+    "assumptions": A_CORE,
+}
 P["C20"] = {
     "common": {"validate": 6, "ignore_kinds": ["alloc", "unwind"], "runs": [
         {"pattern": "verifHarness_C20_", "label_filter": "C20:"},
